@@ -301,9 +301,8 @@ def run(prop, tier):
             "harness aborted (rc=%d) in %s: sanitizer report or crash while driving the real TimestampFormatter" % (rc, label))
 
     # --- classify oracle hits -------------------------------------------------------------------------
-    known_seen = {}
-    unexplained = []
-    for label, ln, clines in oracle_hits:
+    def live_classes(ln, clines):
+        """finding classes (still open) that explain this oracle failure; [] = unexplained"""
         pat = unhex(clines[0].split()[5])
         cls = set(classes_of(pat))
         cause = re.search(r"cause=(\S+)", ln)
@@ -316,7 +315,12 @@ def run(prop, tier):
             cls &= {"F20"}
         else:
             cls &= {"F8", "F20", "F22"}
-        live = [c for c in ORDER if c in cls and finding_status(c) != "fixed"]
+        return [c for c in ORDER if c in cls and finding_status(c) != "fixed"]
+
+    known_seen = {}
+    unexplained = []
+    for label, ln, clines in oracle_hits:
+        live = live_classes(ln, clines)
         if live:
             known_seen.setdefault(live[0], []).append((label, ln, clines))
         else:
@@ -361,11 +365,9 @@ def run(prop, tier):
         found = None
         for cid in order:
             for ln in cases[cid]:
-                if ln.startswith("ORACLE"):
-                    pat = unhex(cases[cid][0].split()[5])
-                    if not classes_of(pat) and "cause=-" in ln.replace("cause=- ", "cause=- "):
-                        found = (ln, cases[cid])
-                        break
+                if ln.startswith("ORACLE") and not live_classes(ln, cases[cid]):
+                    found = (ln, cases[cid])
+                    break
             if found:
                 break
         if found:
